@@ -72,6 +72,30 @@ class TxIds(Family):
         wtxid = W.wtxid(m)
         if (txid != wtxid) != has:
             raise HarnessError('reference ids inconsistent')
+        # computations that cannot succeed come first (a field outside its wire range, at the start / in the middle / at the
+        # end of the encoding): whatever they raise, nothing of them may colour the identifiers computed afterwards
+        bad = C.lib_tx(m, mutable=True, witobj=mode)
+        for attr, val in (('nLockTime', 1 << 32), ('nVersion', 1 << 31)):
+            keep = getattr(bad, attr)
+            setattr(bad, attr, val)
+            for fn in (bad.GetTxid, bad.GetHash, bad.serialize):
+                try:
+                    fn()
+                except Exception:  # noqa
+                    pass
+            setattr(bad, attr, keep)
+        if bad.vout:
+            bad.vout[-1].nValue = 1 << 63
+            for fn in (bad.GetTxid, bad.GetHash):
+                try:
+                    fn()
+                except Exception:  # noqa
+                    pass
+        # the witness hash asked for first, the txid second (the loop below asks in the other order)
+        for mut in (False, True):
+            t = C.lib_tx(m, mutable=mut, witobj=mode)
+            if t.GetHash() != wtxid or t.GetTxid() != txid or t.GetHash() != wtxid:
+                raise Viol('%s transaction asked for GetHash() first, GetTxid() second' % ('mutable' if mut else 'immutable'), (wtxid.hex(), txid.hex()), (t.GetHash().hex(), t.GetTxid().hex()))
         objs = []
         for mut in (False, True):
             t = C.lib_tx(m, mutable=mut, witobj=mode)
